@@ -292,10 +292,22 @@ def locate_error(g, d, kind):
         order = prim + sec       # call site (primary) is in the owner; secondary is the callee's requires
     else:
         order = prim + sec
+    def call_sites(sp):
+        """the span itself, then the call sites of the macro expansions it came from (`scalar_arg!(args)` inside `gamma`)"""
+        out, cur, n = [sp], sp, 0
+        while isinstance(cur.get("expansion"), dict) and isinstance(cur["expansion"].get("span"), dict) and n < 8:
+            cur = cur["expansion"]["span"]
+            out.append(cur)
+            n += 1
+        return out
+
     for s in order:
-        o = owner_of(s["line_start"])
-        if o:
-            owner = o
+        for cs in call_sites(s):
+            o = owner_of(cs["line_start"])
+            if o:
+                owner = o
+                break
+        if owner:
             break
     for s in spans:
         li = info(s["line_start"])
@@ -477,6 +489,10 @@ def main(argv):
         if missing:
             undecided.append(f"vacuous unit={unit}: no verifier query for {missing}")
             continue
+        unowned = [e for e in ur.errors if not e.get("owner")]
+        if unowned:
+            # a verifier error that maps to NO function or lemma under contract must not vanish: the unit is undecided
+            undecided.append(f"unattributed unit={unit}: verifier error outside every function under contract: " + (unowned[0].get("message") or "")[:200])
         obs = obligations_for(ur.gen, prop, ur.errors, ur.breakdown, unit)
         for o in obs:
             o["unit"] = unit
